@@ -549,3 +549,33 @@ Proof.
   destruct path; [contradiction|]. cbn [is_empty]. rewrite Hg.
   eexists. split; reflexivity.
 Qed.
+
+(* ------------------------------------------------------------------ OpenFile establishes the session of data_exact *)
+Lemma rdwr_bits : (o_rdwr =? o_rdonly) = false /\ (Z.land o_rdwr o_trunc =? 0) = true /\
+                  (Z.land o_rdwr o_append =? 0) = true /\ (Z.land o_rdwr o_create =? 0) = true.
+Proof. repeat split; reflexivity. Qed.
+
+(* OpenFile(name, O_RDWR) on an existing object that has no cached resource: the bucket is untouched,
+   the new handle and its fresh resource satisfy every hypothesis of data_exact (position 0, writable) *)
+Theorem open_establishes_session bkt g name path (d : bytes) :
+  norm_name name = name -> name <> [] -> split_name name = (bkt, path) -> path <> [] ->
+  alist_get name (g_raw g) = None -> alist_get path (g_objs g) = Some d ->
+  exists g' h r,
+    fs_open_file bkt g name o_rdwr = (g', inr h) /\ g_objs g' = g_objs g /\
+    nth_error (g_res g') (h_res h) = Some r /\
+    rvalid bkt r /\ r_reader r = None /\ r_writer r = None /\ r_path r = path /\
+    h_closed h = false /\ h_off h = 0 /\ (h_flags h =? o_rdonly) = false.
+Proof.
+  intros Hn Hne Hs Hp Hraw Hg.
+  destruct rdwr_bits as (B1 & B2 & B3 & B4).
+  unfold fs_open_file. rewrite Hn.
+  unfold gvalidate. destruct name as [|c name']; [contradiction|]. cbn [is_empty].
+  set (name := c :: name') in *.
+  rewrite Hraw. unfold get_obj. rewrite Hs. cbn [fst]. unfold get_bucket. rewrite beqb_refl.
+  unfold galloc, new_resource. rewrite Hs. rewrite B1, B2, B3, B4. cbn [negb].
+  eexists _, _, (mkR name bkt path 0 0 None None). split; [reflexivity|].
+  cbn [g_objs g_res h_res h_closed h_off h_flags r_reader r_writer r_path].
+  splits; auto.
+  - apply nth_error_snoc.
+  - unfold rvalid. cbn. auto.
+Qed.
